@@ -27,6 +27,9 @@ def scalar_values(desc, small: bool = False) -> list:
         vs = [0, 1, hi, lo, -1, hi + 1, lo - 1]
         if not small:
             vs += [hi - 1, (1 << 64) + 5, True]
+            # integral-valued floats (exactly representable): in range, at / just beyond the range ends (float(hi) of a wide type
+            # rounds UP to hi + 1), and far outside
+            vs += [3.0, float(hi), float(lo), float(hi) * 2.0, -float(hi) * 2.0 - 2.0, 1e19, 1e20, -1e19, 2.0**53 + 2.0, float(2**200)]
         out = []
         for v in vs:
             if not any(type(v) == type(o) and v == o for o in out):
@@ -67,7 +70,9 @@ def values(desc, cap: int = 24, small: bool = False) -> list:
         return out[:cap]
     if k == "struct":
         names = [("f%d" % i, f) for i, f in enumerate(desc[1]) if f[0] != "void"]
-        alphas = [values(f, cap=8, small=True) for _n, f in names]
+        # a single-field structure carries the FULL alphabet of its field (the scalar wrappers of the codec checks); wider
+        # structures use the small per-field alphabets so that the product stays enumerable
+        alphas = [values(f, cap=8 if len(names) > 1 else cap, small=(small or len(names) > 1)) for _n, f in names]
         total = math.prod(len(a) for a in alphas) if alphas else 1
         out = []
         if total <= cap:
